@@ -181,6 +181,40 @@ pub fn run(tier: Tier, seed: u64) -> i32 {
         stats.space(json!({"space": sp.name, "cases": after - before, "what": sp.describe}));
         eprintln!("  [{}] {} cases, t={:.1}s", sp.name, after - before, stats.elapsed());
     }
+    // the well-formed corpus: every document of the C02 space in its default layout
+    {
+        let ds = super::docspace::c02_space(tier);
+        let firsts: Vec<usize> = {
+            let mut v = Vec::new();
+            let mut at = 0;
+            for e in &ds.entries {
+                if !e.layouts.is_empty() {
+                    v.push(at);
+                }
+                at += e.layouts.len();
+            }
+            v
+        };
+        let before = stats.states.load(std::sync::atomic::Ordering::Relaxed);
+        super::drive(
+            &stats,
+            firsts.len(),
+            1,
+            |i| {
+                let (e, l, r) = ds.get(firsts[i]);
+                Some(Case {
+                    prop: PROP.into(),
+                    kind: "E-DOC corpus".into(),
+                    label: format!("{} / {}", e.label, l.name),
+                    files: vec![("f".into(), r.text)],
+                    expect: json!(null),
+                })
+            },
+            check_case,
+        );
+        let after = stats.states.load(std::sync::atomic::Ordering::Relaxed);
+        stats.space(json!({"space": "E-DOC corpus", "cases": after - before, "what": "every document of the C02 document space, first layout"}));
+    }
     stats.sample(json!({"text": "package p ; interface I { void f ( in ) ; }", "model": "malformed", "space": "E-SEQ/F7"}));
     let wf = stats.outcome_count("model:well-formed");
     let mal = stats.outcome_count("model:malformed");
